@@ -41,6 +41,15 @@ func c13Pick[T any](rt *rapid.T, pool []T, label string) T {
 	return pool[gInt(rt, 0, len(pool)-1, label)]
 }
 
+// secrets of every length around the sizes the token authenticator slices at (18 bytes of fields, 32 of signature)
+var c13OddSecrets = func() []string {
+	var out []string
+	for _, n := range []int{1, 17, 18, 19, 31, 32, 33, 49, 50, 51, 64} {
+		out = append(out, "$b64:"+strings.Repeat("t", n))
+	}
+	return out
+}()
+
 func c13Maybe(rt *rapid.T, p int) bool { return gInt(rt, 0, 99, "maybe") < p }
 
 func c13Any(rt *rapid.T, depth int) any {
@@ -162,13 +171,13 @@ func c13Msg(rt *rapid.T) (string, string) {
 		b["user"] = c13Pick(rt, []string{"", "new", "newabc", "$u0", "$u1", "$self", "usrAAAAAAAAAAA", "usr", "zz", "me"}, "user")
 		if c13Maybe(rt, 40) {
 			b["tmpscheme"] = c13Pick(rt, c13Schemes, "tmpscheme")
-			b["tmpsecret"] = c13Pick(rt, []string{"", "AAAA", "$tok0", "$tok1", "!!"}, "tmpsecret")
+			b["tmpsecret"] = c13Pick(rt, append([]string{"", "AAAA", "$tok0", "$tok1", "!!"}, c13OddSecrets...), "tmpsecret")
 		}
 		if c13Maybe(rt, 50) {
 			b["scheme"] = c13Pick(rt, c13Schemes, "scheme")
 		}
 		if c13Maybe(rt, 50) {
-			b["secret"] = c13Pick(rt, []string{"", "AAAA", "$tok0", "$b64:alice:pw", "$b64:a:b", "$b64::", "$b64:" + strings.Repeat("x", 40) + ":p", "!!"}, "secret")
+			b["secret"] = c13Pick(rt, append([]string{"", "AAAA", "$tok0", "$b64:alice:pw", "$b64:a:b", "$b64::", "$b64:" + strings.Repeat("x", 40) + ":p", "!!"}, c13OddSecrets...), "secret")
 		}
 		if c13Maybe(rt, 20) {
 			b["status"] = c13Pick(rt, []string{"", "ok", "susp", "del", "undef", "zz"}, "status")
@@ -190,7 +199,7 @@ func c13Msg(rt *rapid.T) (string, string) {
 		}
 	case "login":
 		b["scheme"] = c13Pick(rt, c13Schemes, "scheme")
-		b["secret"] = c13Pick(rt, []string{"", "AAAA", "$tok0", "$tok1", "$b64:alice:pw", "$b64:basic:email:a@b.c", "$b64:a", "!!"}, "secret")
+		b["secret"] = c13Pick(rt, append([]string{"", "AAAA", "$tok0", "$tok1", "$b64:alice:pw", "$b64:basic:email:a@b.c", "$b64:a", "!!"}, c13OddSecrets...), "secret")
 		if c13Maybe(rt, 20) {
 			b["cred"] = []any{c13Cred(rt)}
 		}
